@@ -930,8 +930,12 @@ def binop(ctx, op, a, b):
     if k is ast.Pow:
         return T.power(a, b)
     if k is ast.Mod:
+        if ka == "num" and kb == "num" and b[1] != 0:
+            return T.num(a[1] % b[1])
         return T.call("mod", a, b)
     if k is ast.FloorDiv:
+        if ka == "num" and kb == "num" and b[1] != 0:
+            return T.num(Fraction(a[1] // b[1]))
         return T.call("floordiv", a, b)
     return T.call(k.__name__, a, b)
 
